@@ -203,6 +203,18 @@ Theorem C16_clear_forgets_channel : forall ops : list sigop,
 Proof. exact sig_clear_forgets_channel. Qed.
 Print Assumptions C16_clear_forgets_channel.
 
+(* Claim.get_message: asking a typed claim for the view of another type is refused and NEVER changes the claim,
+   whatever the sequence of requests; only a fresh claim takes the type it is first asked for *)
+Theorem C16_claim_view_typed : forall c req : N,
+  fst (claim_view (Some c) req) = Some c /\ (snd (claim_view (Some c) req) = true <-> c = req).
+Proof. exact claim_view_typed. Qed.
+Print Assumptions C16_claim_view_typed.
+
+Theorem C16_claim_view_history : forall (c : N) (reqs : list N),
+  fold_left (fun cur r => fst (claim_view cur r)) reqs (Some c) = Some c.
+Proof. exact claim_view_history. Qed.
+Print Assumptions C16_claim_view_history.
+
 (* ================= (c) URLs ================= *)
 
 (* every well-formed URL value prints to a string that parses back to exactly that value *)
